@@ -3,7 +3,7 @@
 #   abstract spec: spec/algo/RangeCover.tla ; subranges seen by the bodies of real parallel_for / parallel_for_each / parallel_invoke runs
 #   (1-d x 4 partitioners x sizes x grains, 2d/3d/nd, first/last/step, feeder items, sizes beyond 2^24 / 2^31 / 2^32 / 2^64-2) on 3 logical
 #   threads under seeded random cooperative schedules (which decide the steal pattern) are validated by TLC (TraceLoops.tla).
-import os, json, vlib
+import re, os, json, vlib
 SD = os.path.join(vlib.SPEC, 'algo')
 
 
@@ -22,9 +22,60 @@ def describe(tr):
     return 'subranges handed to the body by the real library are rejected by RangeCover (%s): %s' % (signature(tr), json.dumps([e for e in tr if not e['e'].startswith('#')])[:1500])
 
 
+def pool_replay(res, thorough):
+    """every transition of RangePool (the transcription of range_vector: split_to_fill / pop_back / pop_front) applied to the real range_vector<blocked_range<int>, 8>"""
+    exe = vlib.build_harness('h_rangepool', ['sched/h_rangepool.cpp'], link_tbb=False)
+    os.makedirs(os.path.join(vlib.BUILD, 'graphs'), exist_ok=True); os.makedirs(os.path.join(vlib.BUILD, 'traces'), exist_ok=True)
+    for cfg in (['RangePool_q.cfg'] if not thorough else ['RangePool.cfg', 'RangePool_big.cfg']):
+        _pool_replay_cfg(res, exe, cfg)
+
+
+def _pool_replay_cfg(res, exe, cfg):
+    tag = 'c05-' + cfg[:-4]; dot = os.path.join(vlib.BUILD, 'graphs', tag + '.dot')
+    r = vlib.tlc(SD, 'RangePool', cfg, dump=dot, deadlock=False, timeout=3000, xmx='24g'); res.add_tlc(r, 'RangePool:' + cfg); vlib.tlc_must_hold(r, cfg)
+    if r.violation:
+        raise vlib.HarnessFailure('RangePool violates %s' % r.violation)
+    nodes, edges, init = vlib.parse_dot(dot, ['pool', 'head', 'tail', 'size', 'grain', 'lastOp'], raw=True); os.unlink(dot)
+    proj = {}
+    for k, v in nodes.items():
+        f = v.split('\x1f'); cells = {int(i): (lo, hi, d) for i, lo, hi, d in re.findall(r'(\d+) :> \[lo \|-> (\d+), hi \|-> (\d+), d \|-> (\d+)\]', f[0])}
+        head, tail, size = int(f[1]), int(f[2]), int(f[3]); lv = set((tail + j) % 8 for j in range(size))
+        slots = ','.join('%s.%s.%s' % cells[i] if i in lv else '-' for i in range(8))
+        op = re.findall(r'<<"?(\w+)"?, (\d+)>>', f[5])[0]
+        proj[k] = (f[4].strip(), str(head), str(tail), str(size), slots, op[0], op[1])
+    seen = set(); lines = []
+    for u, outs in edges.items():
+        for (v, lab, arg) in outs:
+            a = proj[u]; b = proj[v]
+            line = '|'.join([a[0], a[1], a[2], a[3], a[4], b[5], b[6], b[1], b[2], b[3], b[4]])
+            if line not in seen and a[3] != '0':
+                seen.add(line); lines.append(line)
+    tfn = os.path.join(vlib.BUILD, 'graphs', tag + '-%d.trans' % os.getpid()); open(tfn, 'w').write('\n'.join(lines) + '\n')
+    tf = os.path.join(vlib.BUILD, 'traces', tag + '-%d.ndjson' % os.getpid())
+    p = vlib.sh([exe, tfn, tf], timeout=1500); os.unlink(tfn)
+    if p.returncode != 0:
+        raise vlib.HarnessFailure('h_rangepool failed: %s' % (p.stdout + p.stderr)[-1500:])
+    for l in p.stderr.splitlines()[:3]:
+        if l.startswith('SPEC-DRIFT'):
+            print(l)
+    s = json.loads(p.stdout.strip().splitlines()[-1])
+    evs = vlib.read_trace_file(tf)[0]; os.unlink(tf)
+    execs = [evs[i:i + 500] for i in range(0, len(evs), 500)]
+
+    def describe(tr):
+        i = vlib.first_unexplained(SD, 'TraceRangePool', 'TraceRangePool.cfg', tr, 'c05-rp', linear=True)
+        return ('one operation of the real range_vector loses, duplicates or reorders iterations, splits a range it must not split or exceeds the depth limit: %s' % json.dumps(tr[i] if i is not None else tr[:2]))
+    vlib.validate_and_report(res, SD, 'TraceRangePool', 'TraceRangePool.cfg', execs, tag, describe, batch=40, sig_fn=lambda tr: 'rangepool:op')
+    vlib.log('%s: %d states, %d distinct transitions replayed on the real range_vector, drift %d' % (tag, r.distinct, s['transitions'], s['drift']))
+    res.extra['pool_transitions_replayed'] = res.extra.get('pool_transitions_replayed', 0) + s['transitions']; res.extra['pool_drift'] = res.extra.get('pool_drift', 0) + s['drift']
+    if s['drift']:
+        print('SPEC-DRIFT property=C05 range_vector replay: %d transitions disagree with RangePool.tla' % s['drift'])
+
+
 def run(res, tier, seed):
     exe = vlib.build_harness('h_loops', ['sched/h_loops.cpp'])
     thorough = tier != 'quick'
+    pool_replay(res, thorough)
     vlib.model_check(res, SD, 'Partitioner', 'Partitioner_small.cfg', deadlock=False)
     if thorough:
         vlib.model_check(res, SD, 'Partitioner', 'Partitioner_big.cfg', deadlock=False, timeout=3000)
